@@ -80,6 +80,13 @@ def lastWord (s : String) : String :=
   let r := (s.toList.reverse.dropWhile isPyWs)
   if r.isEmpty then err "IndexError" else String.ofList (r.takeWhile (fun c => !isPyWs c)).reverse
 
+/-- `x.replace("...", "[]")`: non-overlapping occurrences, left to right -/
+def replaceDotsL : List Char → List Char
+  | '.' :: '.' :: '.' :: cs => '[' :: ']' :: replaceDotsL cs
+  | c :: cs => c :: replaceDotsL cs
+  | [] => []
+def replaceDots (s : String) : String := String.ofList (replaceDotsL s.toList)
+
 def boxedOf : String → String
   | "boolean" => "Boolean" | "byte" => "Byte" | "char" => "Character" | "short" => "Short"
   | "int" => "Integer" | "long" => "Long" | "float" => "Float" | "double" => "Double"
@@ -722,7 +729,7 @@ def visitNode (e : Env) (v : St → Node → St × Text) (st : St) (n : Node) : 
       else ""
     let (s3, res) :=
       if isNestedFuncDecl e s2.ns then
-        let types := (paramRes.map fun x => (rsplit1 x).replace "..." "[]") ++ [typeNameO inferred true false]
+        let types := (paramRes.map fun x => replaceDots (rsplit1 x)) ++ [typeNameO inferred true false]
         let types := types.map boxedOf
         let ps := paramRes.map lastWord
         let s3 := { s2 with functionInterfaces := setAdd s2.functionInterfaces ps.length }
